@@ -646,14 +646,14 @@ package chain
 //@   ensures [noop] old(db.unflushed) == 0 ==> !mayHaveCalled("DB.Flush") && result == nil
 //@   ensures [reset] old(db.unflushed) != 0 ==> called("DB.Flush") && db.unflushed == 0
 //@   ensures [fields] db.n == old(db.n) && db.db == old(db.db)
-//@ func (*DBStore).ApplyBlock props C03
+//@ func (*DBStore).ApplyBlock props C03,C02
 //@   requires db != nil && db.db != nil && db.n != nil
 //@   requires [one-diff-per-id] oneDiffPerIDApply(cau)
 //@   requires [schedule-ready] forall d int :: { cau.FileContractElementDiffs()[d] } 0 <= d && d < len(cau.FileContractElementDiffs()) ==> expReadyApply(gExp, cau.FileContractElementDiffs()[d])
 //@   ensures [writes-before-commit] !mayHaveCalled("Flush") || (calledBefore("applyState", "Flush") && (s.Index.Height > db.n.HardforkV2.RequireHeight || calledBefore("applyElements", "Flush")))
 //@   ensures [state-written] called("applyState")
 //@   ensures [index] best == old(best)[s.Index.Height := s.Index.ID] && sheight == s.Index.Height
-//@ func (*DBStore).RevertBlock props C03
+//@ func (*DBStore).RevertBlock props C03,C02
 //@   requires db != nil && db.db != nil && db.n != nil
 //@   requires [one-diff-per-id] oneDiffPerIDRevert(cru)
 //@   requires [schedule-ready] forall d int :: { cru.FileContractElementDiffs()[d] } 0 <= d && d < len(cru.FileContractElementDiffs()) ==> expReadyRevert(gExp, cru.FileContractElementDiffs()[d])
